@@ -93,9 +93,15 @@ impl<'a> Nevra<'a> {
 
     /// Parse the name, epoch, version, release and arch values and return them as a 5-element tuple
     pub fn parse_values(nevra: &'a str) -> (&'a str, &'a str, &'a str, &'a str, &'a str) {
-        let (name, evra) = nevra.split_once('-').unwrap_or((nevra, ""));
-        let (epoch, vra) = evra.split_once(':').unwrap_or(("", evra));
-        let (version, ra) = vra.split_once('-').unwrap_or((vra, ""));
+        // The name may itself contain dashes; version and release may not, so they are the
+        // last two dash-separated fields.
+        let (nev, ra) = nevra.rsplit_once('-').unwrap_or((nevra, ""));
+        let (name, ev, ra) = match nev.rsplit_once('-') {
+            Some((name, ev)) => (name, ev, ra),
+            // a single dash separates the name from the version
+            None => (nev, ra, ""),
+        };
+        let (epoch, version) = ev.split_once(':').unwrap_or(("", ev));
         let (release, arch) = ra.rsplit_once('.').unwrap_or((ra, ""));
 
         (name, epoch, version, release, arch)
